@@ -96,6 +96,23 @@ pub fn families(prop: &str, tier: Tier) -> Vec<Cfg> {
             f.dev = 2;
             f.drain = false;
             v.push(f);
+            // disconnect() right after a cancelled operation left a packet half written, under further
+            // partial writes
+            let mut k = Cfg::base("C01-disconnect-after-half-written-packet");
+            k.props = vec!["C01"];
+            k.ops = vec![OpK::Pub1, OpK::Sub, OpK::Disconnect];
+            k.io = IoMenu::partial();
+            k.io.all_partials_upto = 3;
+            k.io.read_partial = false;
+            k.io.read_pending = false;
+            k.cancel = true;
+            k.cancel_only = Some(vec![OpK::Pub1, OpK::Sub]);
+            k.max_ops = 3;
+            k.max_conns = 1;
+            k.max_reqs = 1;
+            k.dev = if q { 3 } else { 4 };
+            k.drain = false;
+            v.push(k);
             // the broker sends more QoS 2 publishes than the client's Receive Maximum allows
             let mut h = Cfg::base("C01-broker-exceeds-receive-maximum");
             h.props = vec!["C01"];
@@ -314,7 +331,18 @@ pub fn families(prop: &str, tier: Tier) -> Vec<Cfg> {
             e.max_conns = 2;
             e.max_reqs = 10;
             e.dev = 0;
-            vec![a, b, c, d, e]
+            // the broker's Maximum Packet Size differs from connection to connection (tiny values: the PUBREL
+            // still fits, the PUBLISH does not)
+            let mut f = Cfg::base("C03-maximum-packet-size-changes-between-connections");
+            f.props = vec!["C03"];
+            f.ops = vec![OpK::Pub2, OpK::Poll, OpK::DropConn];
+            f.io = IoMenu::benign();
+            f.broker.max_packet = vec![None, Some(5), Some(8), Some(64)];
+            f.max_ops = if q { 8 } else { 10 };
+            f.max_conns = if q { 3 } else { 4 };
+            f.max_reqs = 2;
+            f.dev = 0;
+            vec![a, b, c, d, e, f]
         }
         "C04" => {
             let mut a = Cfg::base("C04-inbound-qos012-interleaved");
@@ -478,6 +506,19 @@ pub fn families(prop: &str, tier: Tier) -> Vec<Cfg> {
             c.max_reqs = if q { 3 } else { 4 };
             c.dev = 0;
             v.push(c);
+            // SUBSCRIBE / UNSUBSCRIBE traffic while the window is partly used
+            let mut su = Cfg::base("C06-window-with-subscribe-and-unsubscribe-traffic");
+            su.props = vec!["C06"];
+            su.ops = vec![OpK::Pub1, OpK::Pub2, OpK::Sub, OpK::Unsub, OpK::Poll];
+            su.io = IoMenu::benign();
+            su.broker.receive_max = vec![Some(2), Some(3)];
+            su.broker.reorder_window = 2;
+            su.broker.ack_fail = true;
+            su.max_ops = if q { 7 } else { 9 };
+            su.max_conns = 1;
+            su.max_reqs = if q { 5 } else { 6 };
+            su.dev = 0;
+            v.push(su);
             // refusals for different reasons one after the other (window full, packet too large), then an
             // accepted publish
             let mut r = Cfg::base("C06-window-and-size-refusals");
@@ -676,7 +717,23 @@ pub fn families(prop: &str, tier: Tier) -> Vec<Cfg> {
             r.max_conns = if q { 2 } else { 3 };
             r.max_reqs = 2;
             r.dev = if q { 1 } else { 2 };
-            let mut v = vec![a, r];
+            // keep-alive traffic half written (or written but not flushed) when the connection is lost
+            let mut ka = Cfg::base("C12-keepalive-traffic-half-written-at-connection-loss");
+            ka.props = vec!["C12"];
+            ka.keepalive = 10;
+            ka.ops = vec![OpK::Poll, OpK::Drive, OpK::Sleep, OpK::Pub1, OpK::DropConn];
+            ka.sleeps = vec![5_000];
+            ka.io = IoMenu::faults_only();
+            ka.io.write_partial = true;
+            ka.io.all_partials_upto = 2;
+            ka.io.write_pending = true;
+            ka.io.flush_pending = true;
+            ka.cancel = true;
+            ka.max_ops = if q { 6 } else { 7 };
+            ka.max_conns = 2;
+            ka.max_reqs = 1;
+            ka.dev = 2;
+            let mut v = vec![a, r, ka];
             // the inbound QoS 2 table exactly full (and one short of full) when the connection is lost
             let mut t = Cfg::base("C12-inbound-qos2-table-full-at-connection-loss");
             t.must_reach = vec!["inbound QoS 2 table full (8 identifiers pending)"];
@@ -833,7 +890,31 @@ pub fn families(prop: &str, tier: Tier) -> Vec<Cfg> {
             f.max_conns = 1;
             f.max_reqs = 0;
             f.dev = if q { 2 } else { 3 };
-            vec![a, b, c, d, e, f]
+            // cancellation at every await point of the keep-alive traffic; the broker never answers, the
+            // application polls on until the handle is dead
+            let mut g = Cfg::base("C13-cancel-during-keepalive-traffic");
+            g.props = vec!["C13"];
+            g.twin = Some(Twin::Cancel);
+            g.prune = false;
+            g.cancel = true;
+            g.cancel_connect = false;
+            g.keepalive = 10;
+            // (no requests: with a silent broker an uncancelled poll only ever ends with the handle dead)
+            g.ops = vec![OpK::Poll, OpK::Drive, OpK::Sleep];
+            g.sleeps = vec![5_000];
+            g.io = IoMenu::benign();
+            g.io.write_pending = true;
+            g.io.flush_pending = true;
+            g.broker.mute_pingresp = true;
+            g.broker.reorder_window = 1;
+            g.broker.fifo = true;
+            g.drain = false;
+            g.drain_until_dead = true;
+            g.max_ops = if q { 4 } else { 5 };
+            g.max_conns = 1;
+            g.max_reqs = 1;
+            g.dev = 2;
+            vec![a, b, c, d, e, f, g]
         }
         "C15" => {
             let mut a = Cfg::base("C15-partial-and-pending-transport-answers");
@@ -1066,7 +1147,19 @@ pub fn families(prop: &str, tier: Tier) -> Vec<Cfg> {
             j.family = "C16-packet-larger-than-64KiB-1460-byte-writes";
             j.io.max_write = 1_460;
             j.io.write_partial = false;
-            vec![a, b, c, d, e, f, g, h, i, j]
+            // short keep-alives (configured or set by the broker) with a broker that answers every PINGREQ
+            let mut sk = Cfg::base("C16-short-keepalive-responsive-broker");
+            sk.props = vec!["C16"];
+            sk.keepalive = 4;
+            sk.ops = vec![OpK::Pub1, OpK::Poll, OpK::Sleep, OpK::DropConn];
+            sk.sleeps = vec![1_000];
+            sk.io = IoMenu::benign();
+            sk.broker.server_keepalive = vec![None, Some(2), Some(5), Some(9)];
+            sk.max_ops = if q { 6 } else { 7 };
+            sk.max_conns = 2;
+            sk.max_reqs = 1;
+            sk.dev = 0;
+            vec![a, b, c, d, e, f, g, h, i, j, sk]
         }
         "C18" => {
             let mut a = Cfg::base("C18-status-after-every-step");
